@@ -208,6 +208,7 @@ func propGraph(c GraphCase) pbt.Outcome {
 	recv := map[port][]uint64{} // per processor input
 	d4 := map[port]bool{}       // per processor input: the precondition of D4/D4h held
 	d5 := map[port]bool{}       // per processor output: the precondition of D5 held
+	lastDone := map[port]int{}  // step in which a processor last left an r2owa on that output
 	d12 := false
 	sameOffer := map[port]bool{}
 	prePc := make([]int, len(spec.Procs))
@@ -230,7 +231,9 @@ func propGraph(c GraphCase) pbt.Outcome {
 					d4[port{p, x.port}] = true
 				}
 			} else if c.World == "sim" {
-				if !w.OutValid(p, x.port) && w.OutRecv(p, x.port) {
+				if last, ok := lastDone[port{p, x.port}]; ok && !w.OutValid(p, x.port) && w.OutRecv(p, x.port) && st-last <= 2 {
+					// (the recorded mechanism: the second write arrives before the received flags had the tick
+					// they need to fall; a received line still high later than that is something else)
 					d5[port{p, x.port}] = true
 				}
 			} else if w.Waitsm0(p) && w.OutValid(p, x.port) {
@@ -250,6 +253,7 @@ func propGraph(c GraphCase) pbt.Outcome {
 				sameOffer[port{p, x.port}] = true
 			} else {
 				sent[port{p, x.port}] = append(sent[port{p, x.port}], w.Reg(p, x.reg))
+				lastDone[port{p, x.port}] = st
 			}
 		}
 		offeredOn := func(sr port) []uint64 {
